@@ -19,6 +19,14 @@ CHECKS = {
    technique="deterministic simulation: SimDisk delivery/fault schedules + op histories vs ground-truth bytes, seeded, replayable, minimised"),
 }
 SETUP_TARGETS = "vsim"
+CHECKS["C02"] = dict(level="fault_enumeration", ref="6/C02",
+   text="For each sampled node the write-failure points of Encode are enumerated completely (every write op k, every write boundary -1/0/+1 as device-full budget, every slice-writer shortfall d in 1..64) against the first clean encoding as model; histories of Size/Info/Encode/EncodeSW are seeded. Nodes and histories are sampled; fault points per node are enumerated.",
+   note="Objects are nodes of decoded corpus files and packager-built productions only; EncodeSW success = nil error and nil accumulated error; objects with separately written (lazy) mdat payload excluded by the library's documented design; reference size walker vsim/ref trusted.",
+   technique="deterministic simulation: sink/slice-writer fault enumeration + seeded call histories vs first clean encoding, replayable tape")
+CHECKS["C05"] = dict(level="exploration", ref="6/C05",
+   text="Seeded search over packager API histories (single/multi-track, full/metadata-only/interval additions, empty tracks, foreign boxes, optimisation, either encoder), segment fetch order/duplication and delivery schedules; read-back by GetFullSamples and by an independent demuxer must equal the producer's sample log per fragment and track.",
+   note="Only documented-valid API histories; fault-free transport; payload pools and field pools bound the values; reference demuxer vsim/ref (written from ISO/IEC 14496-12) trusted.",
+   technique="deterministic simulation: seeded producer history + unit transport (order/dup) + delivery schedule; conservation/order/exactly-once vs sample log")
 PENDING = {k: "claimed in DESIGN.md but its check is not built yet in this revision (work in progress; will move to checks)" for k in ["C02","C03","C04","C05","C06","C10","C11","C12","C19","C20"] if k not in CHECKS}
 def main():
     checks = []
